@@ -54,7 +54,7 @@ func c18Scenario(clients []gridClient) *explore.Scenario {
 			for conn := 0; conn < 3; conn++ {
 				ccfg := g.config("example.com")
 				ccfg.Rand = newScriptRand(fmt.Sprintf("c18-%s-conn%d", g.Name, conn))
-				hs := peer.Run(ccfg, g.ID, sc.config(), peer.Opts{Prepare: g.prepare(), Echo: true})
+				hs := peer.Run(ccfg, g.ID, sc.config(), peer.Opts{Prepare: withBuildOrder(g.prepare(), conn), Echo: true}) // one connection per build order
 				msgs := peer.ClientHelloMsgs(hs.CE.AllWritten())
 				if len(msgs) == 0 {
 					r.Violate("C18|no-hello-on-wire", "%s conn %d: %v", what, conn, hs.CErr)
